@@ -611,6 +611,12 @@ def suite_module(ck, sessions):
     """correspondence (a) + module-level oracle"""
     for ses in sessions:
         ck.hist('session.status', ses.status)
+        if ses.status != 'compile-fails':
+            by_name = {}
+            for v in ses.views:
+                if v.arg_ref:
+                    by_name.setdefault(v.arg_ref.split('.', 1)[1], set()).add(v.arg_ref.split('.', 1)[0])
+            ck.hist('spec.argument_type_names_shared_by_namespaces', min(3, sum(1 for x in by_name.values() if len(x) > 1)))
         if ses.status in ('compile-fails', 'types-fail'):
             ck.stat('module.not_judged.' + ses.status)
             continue
@@ -1088,6 +1094,81 @@ def hand_seed_sets():
     return sets
 
 
+def _canon(name):
+    return name.replace('_', '').replace('/', '').lower()
+
+
+def add_same_named(model, rng):
+    """Same-named definitions in several namespaces, regularly: for the argument struct / union / alias of a route of one
+    namespace, another namespace gets a definition of the SAME NAME (struct with the same field names but other types,
+    defaults and order, or a union, or an alias) and a route `same_name_probe*` that takes it. Whatever the backend derives
+    from a type must then be keyed by namespace and name. Adds definitions only (nothing is renamed: all references stay
+    valid); skipped when the name is taken in the target namespace."""
+    from harness import specgen as sg
+    nss = [n for n in model.namespaces if n.name != 'stone_cfg']
+    routes_all = [d for n in nss for d in n.defs if getattr(d, 'kind', None) == 'route']
+    if len(nss) < 2 or not routes_all:
+        return 0
+    added = 0
+    for _ in range(rng.choice((1, 2, 2, 3))):
+        a, b = rng.sample(nss, 2)
+        cands = []
+        for d in a.defs:
+            if getattr(d, 'kind', None) == 'route' and d.arg is not None and d.arg.ns in (None, a.name) and not d.arg.nullable:
+                t = sg.find_def(model, a.name, d.arg.name)
+                if t is not None and t.kind in ('struct', 'union', 'alias'):
+                    cands.append(t)
+        if not cands:
+            cands = [d for d in a.defs if getattr(d, 'kind', None) in ('struct', 'union')]
+        if not cands:
+            continue
+        src = rng.choice(cands)
+        taken = {_canon(x.name) for x in b.defs if hasattr(x, 'name')} | {_canon(b.name)}
+        probe = 'same_name_probe' + rng.choice(('', '_b', '_two'))
+        if _canon(src.name) in taken or _canon(probe) in taken:
+            continue
+        names = []
+        if src.kind == 'struct':
+            names = [fl.name for _n, _d, fl in sg.all_fields_decl(model, a.name, src)]
+        names = [n for n in names if rng.random() < 0.8]
+        rng.shuffle(names)
+        names.append('only_in_' + _canon(b.name))
+        kind = rng.choice(('struct', 'struct', 'struct', 'union', 'alias'))
+        own_types = [d for d in b.defs if getattr(d, 'kind', None) in ('struct', 'union')]
+        if kind == 'alias' and not own_types:
+            kind = 'struct'
+        if kind == 'struct':
+            fields = []
+            for n in dict.fromkeys(names):
+                how = rng.choice(('req', 'int', 'bool', 'str', 'null'))
+                if how == 'req':
+                    fl = sg.Field(n, sg.TypeRef(rng.choice(('String', 'Int64', 'Boolean'))))
+                elif how == 'int':
+                    fl = sg.Field(n, sg.TypeRef('Int32'), default=rng.choice((0, 1, -5, 77, 2147483647)))
+                elif how == 'bool':
+                    fl = sg.Field(n, sg.TypeRef('Boolean'), default=rng.random() < 0.5)
+                elif how == 'str':
+                    fl = sg.Field(n, sg.TypeRef('String'), default=rng.choice(('', 'x', 'same_name')))
+                else:
+                    fl = sg.Field(n, sg.TypeRef(rng.choice(('String', 'UInt64')), nullable=True))
+                fields.append(fl)
+            new = sg.Struct(src.name, fields=fields)
+        elif kind == 'union':
+            new = sg.Union(src.name, closed=rng.random() < 0.5,
+                           tags=[sg.Field('only_in_' + _canon(b.name)), sg.Field('by_text', sg.TypeRef('String'))])
+        else:
+            new = sg.Alias(src.name, sg.TypeRef(rng.choice(own_types).name))
+        model_route = rng.choice([d for d in b.defs if getattr(d, 'kind', None) == 'route'] or routes_all)
+        route = sg.Route(probe, rng.choice((1, 1, 2)), sg.TypeRef(src.name), sg.TypeRef('Void'), sg.TypeRef('Void'),
+                         attrs={k: v for k, v in model_route.attrs.items() if not isinstance(v, sg.TagRef)})
+        for d in (new, route):
+            b.defs.append(d)
+            if b.files:
+                rng.choice(b.files).append(len(b.defs) - 1)
+        added += 1
+    return added
+
+
 def adapt_model(model, rng):
     """Steer a generated model into the quantifier of C14: every route argument a struct, a union, an alias of one or
     Void (python_client refuses anything else for the whole spec), and a `style` attribute the backend looks at."""
@@ -1117,6 +1198,8 @@ def adapt_model(model, rng):
             return resolves_to(t.ns or nsn, d.type, depth + 1)
         return d.kind if d.kind in ('struct', 'union') else 'other'
 
+    model.same_named_added = add_same_named(model, rng)
+    # (visibility pools are computed below, after the additions)
     cfg = sg.find_ns(model, 'stone_cfg')
     if cfg is None:
         cfg = sg.Namespace('stone_cfg', defs=[sg.Struct('Route')])
@@ -1158,6 +1241,8 @@ def adapt_model(model, rng):
                 continue
             kind = resolves_to(ns.name, d.arg)
             r = rng.random()
+            if d.name.startswith('same_name_probe') and kind != 'other':
+                r = 1.0                    # keep the same-named argument
             if kind == 'other' or r < 0.35:
                 want = 'union' if r < 0.2 else 'struct' if r < 0.3 else None
                 pool = [(src, x) for src, x in visible[ns.name]
